@@ -115,6 +115,22 @@ pub fn non_numbers(thorough: bool) -> Vec<OwnedTerm> {
     out.push(map_of(vec![(int(1), atom("a")), (int(4), atom("a"))]));
     out.push(map_of(vec![(int(1), atom("a")), (int(2), atom("b"))]));
     out.push(map_of(vec![(int(1), atom("a")), (atom("k"), atom("b"))]));
+    // maps keyed by numbers of every representation, in particular an integer and a float of the same value
+    {
+        let big = |neg: bool, k: u32| bigv(neg, 1u128 << k);
+        let keys: Vec<OwnedTerm> = vec![
+            int(0), OwnedTerm::Float(0.0), OwnedTerm::Float(-0.0), int(-1), OwnedTerm::Float(-1.0), OwnedTerm::Float(-1.5), OwnedTerm::Float(-0.5), OwnedTerm::Float(1.5),
+            int(1 << 53), OwnedTerm::Float(9007199254740992.0), int(i64::MAX), OwnedTerm::Float(9223372036854775808.0), big(false, 63), big(false, 64), OwnedTerm::Float(18446744073709551616.0),
+            big(true, 64), OwnedTerm::Float(-18446744073709551616.0), OwnedTerm::Float(1e20), bigv(false, 100_000_000_000_000_000_000),
+        ];
+        for k in &keys {
+            out.push(map_of(vec![(k.clone(), int(1))]));
+            out.push(map_of(vec![(k.clone(), int(2))]));
+        }
+        out.push(map_of(vec![(int(-1), atom("a")), (OwnedTerm::Float(-1.5), atom("b"))]));
+        out.push(map_of(vec![(int(0), atom("a")), (OwnedTerm::Float(-0.5), atom("b"))]));
+        out.push(map_of(vec![(int(-2), atom("a")), (OwnedTerm::Float(-1.5), atom("b"))]));
+    }
     // identifiers, plain and node-local forms
     out.push(OwnedTerm::Pid(pid("n@h", 1, 2, 3)));
     out.push(OwnedTerm::Pid(pid("n@h", 1, 2, 4)));
